@@ -661,6 +661,12 @@ def counted_bodies(ctx: Ctx, rows: dict, cases: list, prefix: str = "C04.10") ->
                 if f"'{reg}'" not in written:
                     anywhere = any(t2.ctor == "set_reg" and repr(t2.args[1]) == f"'{reg}'" for st in il for t2 in ilfacts.walk(st))
                     groups[(prefix + "/loop-autoinc", c.opcode, f"[{reg}{t}] is not updated inside the loop body ({'only outside it' if anywhere else 'never written'}): {reg} ends at most one step away instead of I steps")].append(c)
+        # L4: the byte count I is unsigned: no signed comparison may involve it
+        for st in il:
+            for t in ilfacts.walk(st):
+                if t.ctor.startswith("compare_signed") and any(x.ctor == "reg" and repr(x.args[1]) == "'I'" for x in ilfacts.walk(t)):
+                    n += 1
+                    groups[(prefix + "/loop-count-signed", c.opcode, f"{t.ctor} on the byte count I")].append(c)
     for (rule, op, what), cs in sorted(groups.items(), key=lambda kv: (kv[0][0], kv[0][1])):
         r = rows[op]
         ctx.violation(rule, key_of(isa.INSTR_PY, f"opcode 0x{op:02X} {r.cls}", what.split(" (")[0]),
